@@ -463,9 +463,28 @@ fn item(it: &Item) -> J {
         Item::Struct(s) => item_struct(s),
         Item::Enum(e) => item_enum(e),
         Item::Impl(i) => item_impl(i),
+        Item::Fn(f) => item_fn(f),
         _ => None,
     };
     structured.unwrap_or_else(|| obj! {"kind": "other", "tokens": spaced(it)})
+}
+
+/// a free function (used when the macro's own source is read): same shape as an impl fn
+fn item_fn(f: &syn::ItemFn) -> Option<J> {
+    let sig = &f.sig;
+    if sig.abi.is_some() || sig.variadic.is_some() || sig.generics.where_clause.is_some() {
+        return None;
+    }
+    let ret = match &sig.output {
+        ReturnType::Default => J::Null,
+        ReturnType::Type(_, t) => ty(t),
+    };
+    Some(obj! {
+        "kind": "fn", "name": sig.ident.to_string(), "attrs": attrs(&f.attrs), "vis": vis(&f.vis),
+        "const": sig.constness.is_some(), "unsafe": sig.unsafety.is_some(),
+        "async": sig.asyncness.is_some(), "generics": compact(&sig.generics),
+        "params": arr(&sig.inputs, param), "ret": ret, "body": block(&f.block)
+    })
 }
 
 fn generic_param(p: &GenericParam) -> J {
